@@ -96,6 +96,11 @@ func c19(r *Report) {
 	_ = nf
 	strm := w.Named("marbl", "Stream")
 
+	r.Guard("C19.R1", "frames of different messages carry different IDs: a message's ID is its context's fresh random ID", func() {
+		contextIDFreshRule(r)
+		statelessRule(r, r.W.Fn("", "newID"), map[string]bool{}, "IDs repeat once the kept state wraps: frames of two messages carry one ID and parse back as one message")
+	})
+
 	r.Guard("C19.R1", "one goroutine writes the stream and every frame is handed to it whole", func() {
 		fw := structField(strm, "w")
 		users := map[string]bool{}
